@@ -45,7 +45,12 @@ CLAIM = {
              "behaviour and every snapshot fault, and after any history equals v0 + number of committed turns (kill-switch turns contribute 0); the only "
              "way apply raises is the unguarded snapshot write; snapshot attempted iff turn % max(1,n) == 0; on-apply invalidation empties every configured "
              "namespace and reports exactly the number removed; kill-switch turns make no store call, keep version and snapshot, and emit no t4/apply record."),
-    "note": ("Model follows the code WITH the proposed fix (count parsing outside the batch try). The pre-fix behaviour is kept as storePhaseLegacy with a "
+    "note": ("Round 3: the store double now carries the whole surface the apply->snapshot path touches (apply_deltas / export_state / w / import_state, "
+             "lookup + call + return value, each scriptable to raise or return garbage); C04_store_faults_never_propagate states that NO store fault propagates "
+             "(only the snapshot file write itself may raise); this holds of the code with proposed_fixes/C04_store_faults_never_abort_apply.diff (guards the store "
+             "export in write_snapshot and the apply_deltas lookup). Component t4apply feeds the REAL t4_filter output into the REAL apply_changes (directly and "
+             "through run_turn histories) and checks with the Lean predicate canonHandoffB that the store receives T4's approved list, canonically sorted. "
+             "Model follows the code WITH the proposed fix (count parsing outside the batch try). The pre-fix behaviour is kept as storePhaseLegacy with a "
              "machine-checked double-hand-off witness (C04_legacy_double_on_garbage); the same witness is a corpus case evaluated on the real code each run. "
              "Covered by correspondence only: concrete Python forms of counts/version/turn ids (int(), str()), dict vs attribute state, the ApplyResult/"
              "apply.jsonl field plumbing, the content of the snapshot file (write_snapshot itself belongs to C06/C08), `canonical order' (apply forwards the "
@@ -58,8 +63,13 @@ MODELLED = {
     "clematis/engine/apply.py": ["apply_changes", "_bump_version_etag", "_should_snapshot", "_safe_get", "_safe_int", "_get_cfg"],
     "clematis/engine/orchestrator/core.py": ["Orchestrator.run_turn"],
     "clematis/engine/cache.py": ["CacheManager.invalidate_namespace"],
+    "clematis/engine/snapshot.py": ["_export_store_for_snapshot"],
+    "clematis/engine/stages/t4.py": ["t4_filter", "_canonical_key", "_churn_cap"],
 }
-TRUSTED = ["modelled, not verified: the store (scripted double), write_snapshot I/O (C06/C08), CPython int()/str() on the concrete forms generated, "
+TRUSTED = ["store surface exercised by the doubles (derived from apply.py + snapshot.py): state.store, store.apply_deltas (lookup, batch call, per-delta "
+           "call, return value), store.export_state (lookup, call, return value), store.w (lookup, keys, values), store.import_state (boot loader only, "
+           "inside run_turn's own try/except); each scriptable to raise any of 9 Exception types or to return garbage, on cadence and non-cadence turns",
+           "modelled, not verified: the store (scripted double), write_snapshot I/O (C06/C08), CPython int()/str() on the concrete forms generated, "
            "CacheManager internals beyond invalidate_namespace/get/set (C15/C05)"]
 
 NS = ["t2:semantic", "t1:propagate", "t2:hybrid", "misc"]
@@ -110,6 +120,14 @@ def _turn_val(turn: Optional[int], form: int) -> Any:
     if turn is None:
         return JUNK_TURN[form % len(JUNK_TURN)]
     return str(turn) if form % 2 == 1 else turn
+
+
+class _Recorder:
+    """Store without a usable `apply_deltas`; still carries the recording fields."""
+
+    def __init__(self, script, real, idx_of):
+        self.calls: List[List[int]] = []
+        self.graphs: List[Any] = []
 
 
 class ScriptedStore:
@@ -214,7 +232,8 @@ def _gen_common(rng: random.Random) -> Tuple[dict, dict]:
     nsl = rng.choice([None, None, [0], [0, 1], [1, 0, 1], [], [2, 3, 0], [3], [0, 0]])
     turn = rng.choice([0, 1, 2, 3, 4, 5, 6, 7, 9, 10, 12, -1, -4, 1000, None])
     every = rng.choice([1, 1, 2, 2, 3, 4, 5, 0, -2, 1000])
-    d = {"store": rng.choices(["fn", "none", "noFn"], [85, 7, 8])[0], "turn": turn, "every": every,
+    d = {"store": rng.choices(["fn", "none", "noFn", "attrRaises"], [82, 6, 7, 5])[0], "turn": turn, "every": every,
+         "exportMode": rng.choices(EXPORT_MODES, [40, 15, 20, 15, 10])[0], "wMode": rng.choices(W_MODES, [35, 20, 15, 20, 10])[0],
          "bust": mode == "on-apply", "namespaces": nsl,
          "cmFault": rng.choice([None, None, None, 0, 1, 2]),
          "deltas": ds, "script": _gen_script(rng, len(ds))}
@@ -224,12 +243,60 @@ def _gen_common(rng: random.Random) -> Tuple[dict, dict]:
     return d, real
 
 
-def _mk_store(kind: str, script, real, idx_of):
+GARBAGE_EXPORT = [lambda: {"x": object()}, lambda: {(1, 2): 3}, lambda: {"s": {1, 2}}, lambda: object()]
+BAD_W_VALUES = ["abc", None, [], "1.5x"]
+EXPORT_MODES = ["absent", "ok", "raises", "garbage", "attrRaises"]
+W_MODES = ["absent", "ok", "badKey", "badValue", "attrRaises"]
+
+
+def _mk_store(kind: str, script, real, idx_of, export_mode: str = "absent", w_mode: str = "absent"):
+    """Store double with the whole surface the apply -> snapshot path touches:
+    `apply_deltas` (lookup + call), `export_state` (lookup + call), `w` (lookup + content),
+    `import_state` (boot loader; always raises here, it must never matter)."""
     if kind == "none":
         return None
+    exc = lambda k: EXC[(real.get("exc", 0) + k) % len(EXC)]
+    ns: dict = {}
     if kind == "noFn":
-        return object() if real.get("nofn", 0) == 0 else SimpleNamespace(apply_deltas=5)
-    return ScriptedStore(script, real, idx_of)
+        if real.get("nofn", 0) == 1:
+            ns["apply_deltas"] = 5
+        base: tuple = (_Recorder,)
+    elif kind == "attrRaises":
+        def _ad(self):
+            raise exc(3)("scripted apply_deltas lookup failure")
+        ns["apply_deltas"] = property(_ad)
+        base = (_Recorder,)
+    else:
+        base = (ScriptedStore,)
+    if export_mode == "ok":
+        ns["export_state"] = lambda self: {"nodes": [{"id": "n:0", "w": 0.5}], "rev": 3}
+    elif export_mode == "raises":
+        def _es(self):
+            raise exc(1)("scripted export_state failure")
+        ns["export_state"] = _es
+    elif export_mode == "garbage":
+        g = GARBAGE_EXPORT[real.get("bad", 0) % len(GARBAGE_EXPORT)]
+        ns["export_state"] = lambda self: g()
+    elif export_mode == "attrRaises":
+        def _esp(self):
+            raise exc(2)("scripted export_state lookup failure")
+        ns["export_state"] = property(_esp)
+    if w_mode == "ok":
+        ns["w"] = {("node", "n:0", "weight"): 0.5, ("edge", "e:a|r|b", "weight"): -0.25}
+    elif w_mode == "badKey":
+        ns["w"] = {"oops": 1.0, ("node", "n:1", "weight"): 0.25, ("too", "short"): 2.0}
+    elif w_mode == "badValue":
+        ns["w"] = {("node", "n:0", "weight"): 0.5, ("node", "n:1", "weight"): BAD_W_VALUES[real.get("bad", 0) % len(BAD_W_VALUES)]}
+    elif w_mode == "attrRaises":
+        def _wp(self):
+            raise exc(4)("scripted w lookup failure")
+        ns["w"] = property(_wp)
+
+    def _imp(self, st):
+        raise exc(5)("scripted import_state failure")
+    ns["import_state"] = _imp
+    cls = type("StoreDouble", base, ns)
+    return cls(script, real, idx_of)
 
 
 def _sizes(cm, ids) -> list:
@@ -297,7 +364,7 @@ class ApplyComp(Component):
         pool = _pool(max(case["deltas"], default=-1) + 1)
         ids = {id(p): k for k, p in enumerate(pool)}
         idx_of = lambda d: ids.get(id(d), 10 ** 6)
-        store = _mk_store(case["store"], case["script"], real, idx_of)
+        store = _mk_store(case["store"], case["script"], real, idx_of, case.get("exportMode", "absent"), case.get("wMode", "absent"))
         holder = {"n": 0, "fault": case["cmFault"]}
         cm = _mk_cm(case["cm"], holder) if case["cm"] is not None else None
         vval = _ver_val(case["ver"], real.get("ver_form", 0))
@@ -348,7 +415,7 @@ class ApplyComp(Component):
             ap.write_snapshot = orig_ws
         v_after = state.get("version_etag") if isinstance(state, dict) else getattr(state, "version_etag", None)
         out["version"] = v_after if isinstance(v_after, str) else "!" + repr(v_after)
-        out["calls"] = store.calls if isinstance(store, ScriptedStore) else []
+        out["calls"] = store.calls if store is not None else []
         out["cm"] = _sizes(cm, [k for k, _ in case["cm"]]) if cm is not None else None
         out["snap"] = snaps[0] if snaps else None
         out["snap_calls"] = len(snaps)
@@ -361,16 +428,21 @@ class ApplyComp(Component):
             fver = None
             if res.snapshot_path is not None:
                 try:
-                    fver = json.loads(Path(res.snapshot_path).read_text()).get("version_etag")
+                    sj = json.loads(Path(res.snapshot_path).read_text())
+                    fver = sj.get("version_etag")
+                    sec = sj.get("store")
+                    out["snapStore"] = ("empty" if sec == {} else "state" if isinstance(sec, dict) and list(sec) == ["state"]
+                                        else "weights" if isinstance(sec, dict) and list(sec) == ["weights"] else f"!{str(sec)[:40]}")
                 except Exception as e:
                     fver = f"!unreadable {type(e).__name__}"
             out["file_version"] = fver
+        out.setdefault("snapStore", None)
         if isinstance(store, ScriptedStore):
             out["graphs_ok"] = all(g == "g:surface" for g in store.graphs)
         return out
 
     # -- comparison / monitors ---------------------------------------------
-    KEYS = ["calls", "applied", "clamps", "version", "invalidated", "cm", "snap", "raised"]
+    KEYS = ["calls", "applied", "clamps", "version", "invalidated", "cm", "snap", "raised", "snapStore"]
 
     def compare(self, case, impl_out, model_out):
         if not isinstance(model_out, dict) or "__model_err__" in model_out:
@@ -399,6 +471,8 @@ class ApplyComp(Component):
                 or not isinstance(o["clamps"], int):
             return None
         if o["snap"] is not None and not re.fullmatch(r"-?\d+", str(o["snap"].get("version"))):
+            return None
+        if o.get("snapStore") not in (None, "empty", "state", "weights"):
             return None
         return o
 
@@ -453,6 +527,12 @@ class ApplyComp(Component):
                 t.add("cm_fault")
         if case["turn"] is None:
             t.add("turn_unparsable")
+        if case["store"] != "none" and io.get("snap") is not None:
+            em, wm = case.get("exportMode", "absent"), case.get("wMode", "absent")
+            if em in ("raises", "garbage", "attrRaises"):
+                t.add("export_fault_on_cadence:" + em)
+            if em in ("absent", "raises") and wm in ("badKey", "badValue", "attrRaises"):
+                t.add("w_fault_on_cadence:" + wm)
         if len(set(case["deltas"])) < len(case["deltas"]):
             t.add("dup_deltas")
         return sorted(t) or ["default"]
@@ -577,7 +657,7 @@ class HistComp(Component):
             for k, t in enumerate(case["turns"]):
                 rl = (real.get("turns") or [{}] * len(case["turns"]))[k]
                 cur["deltas"] = t["deltas"]
-                store = _mk_store(t["store"], t["script"], rl, idx_of)
+                store = _mk_store(t["store"], t["script"], rl, idx_of, t.get("exportMode", "absent"), t.get("wMode", "absent"))
                 sset("store", store)
                 holder["n"], holder["fault"] = 0, t["cmFault"]
                 t4cfg = _t4_cfg(t, rl, str(snapdir))
@@ -699,7 +779,176 @@ class HistComp(Component):
             yield dict(case, turns=ts[:i] + ts[i + 1:], real=dict(case.get("real", {}), turns=rs[:i] + rs[i + 1:]))
 
 
-COMPONENTS = [ApplyComp(), HistComp()]
+class _KeyStore:
+    """Recording store for the T4 -> Apply stream: keeps the objects it was handed."""
+
+    def __init__(self, script):
+        self.script = list(script)
+        self.batches: List[list] = []
+        self.n = 0
+
+    def apply_deltas(self, graph_id, deltas):
+        self.batches.append(list(deltas))
+        k = self.n
+        self.n += 1
+        o = self.script[k] if k < len(self.script) else ["ret", len(deltas), 0]
+        if o[0] == "raise":
+            raise EXC[k % len(EXC)]("scripted store failure")
+        return {"edits": o[1], "clamps": o[2]}
+
+
+def _ckey(d) -> str:
+    return f"{d.target_kind}:{d.target_id}:{d.attr}"
+
+
+class T4ApplyComp(Component):
+    """Composition stream: REAL `t4_filter` output (churn-cap trimming, more distinct targets than the
+    cap, magnitudes not in key order) fed to REAL `apply_changes` — directly and through `run_turn`
+    histories — with a recording store.  Monitor (Lean `canonHandoffB`): the batch the store received
+    equals T4's approved list and is sorted by the canonical key; re-submissions keep that order."""
+    name = "t4apply"
+    budget = {"quick": 300, "thorough": 4000, "search": 4000}
+    scratch: Optional[Path] = None
+    IDS = ["n:a", "n:b", "n:B", "n:a1", "n:a10", "n:a2", "n:z", "n:", "e:a|r|b", "e:a|r|c", "e:b|r|a", "n:ab", "n:a:b", "n:é"]
+
+    def gen(self, rng: random.Random, i: int) -> dict:
+        turns = []
+        for _ in range(rng.choice([1, 1, 2, 4])):
+            nt = rng.choice([2, 3, 4, 6, 8, 12])
+            ids = rng.sample(self.IDS, min(nt, len(self.IDS)))
+            # magnitudes in micro-units (ints: replay files must not contain raw floats)
+            mags = [rng.choice([10000, 50000, 100000, 200000, 250000, 300000, 500000, 900000]) * rng.choice([1, -1]) + rng.randrange(1000)
+                    for _ in ids]
+            if rng.random() < 0.25:
+                mags = [mags[0]] * len(ids)  # all ties: rank order == key order
+            ds = [[rng.choice(["node", "edge"]), t, rng.choice(["weight", "weight", "bias"]), m, rng.randrange(3)]
+                  for t, m in zip(ids, mags)]
+            if rng.random() < 0.3 and ds:
+                ds.append(list(rng.choice(ds)))  # duplicate target: combined by T4
+            rng.shuffle(ds)
+            first = rng.choices([["ret", len(ds), 0], ["raise"], ["ret", None, 0]], [55, 35, 10])[0]
+            turns.append({"deltas": ds, "churn": rng.choice([1, 2, 3, 3, 5, 64]), "l2_milli": rng.choice([10 ** 9, 10 ** 9, 1500, 200]),
+                          "nov_milli": rng.choice([10 ** 9, 10 ** 9, 300]),
+                          "script": [first] + [rng.choice([["ret", 1, 0], ["raise"]]) for _ in range(rng.randrange(0, 4))]})
+        return {"mode": rng.choice(["direct", "run_turn"]), "turns": turns, "state": rng.choice(["dict", "attr"])}
+
+    def request(self, case: dict) -> dict:
+        return {"c": "const", "v": True}
+
+    def impl(self, case: dict) -> Any:
+        from clematis.engine.types import ProposedDelta
+        from clematis.engine.stages import t4 as t4mod
+        from clematis.engine import apply as ap
+        import clematis.engine.orchestrator as orch
+        from clematis.engine.orchestrator import core
+        snapdir = Path(self.scratch) / "t4apply"
+        snapdir.mkdir(exist_ok=True)
+        real_t4 = t4mod.t4_filter
+        state: Any = {"store": None} if case.get("state") != "attr" else SimpleNamespace(store=None, version_etag=None)
+        out_turns = []
+        logs: list = []
+        cur: dict = {}
+        seen: dict = {}
+
+        def wrapped_t4(ctx_, state_, t1, t2, plan, utter):
+            r = real_t4(ctx_, state_, t1, t2, cur["plan"], utter)
+            seen["t4"] = r
+            return r
+
+        saved = {name: getattr(orch, name, None) for name in ("append_jsonl", "t1_propagate", "t2_semantic", "t4_filter")}
+        saved_core = core.t4_filter
+        try:
+            if case["mode"] == "run_turn":
+                orch.append_jsonl = lambda name, payload: logs.append(name)
+                orch.t1_propagate = lambda ctx_, state_, text: SimpleNamespace(metrics={})
+                orch.t2_semantic = lambda ctx_, state_, text, t1: SimpleNamespace(metrics={}, retrieved=[])
+                orch.t4_filter = wrapped_t4
+                core.t4_filter = wrapped_t4
+            for k, t in enumerate(case["turns"]):
+                plan = {"ops": [{"kind": "EditGraph"}] * 3,
+                        "deltas": [ProposedDelta(target_kind=d[0], target_id=d[1], attr=d[2], delta=d[3] / 1e6, op_idx=d[4], idx=j)
+                                   for j, d in enumerate(t["deltas"])]}
+                store = _KeyStore(t["script"])
+                if isinstance(state, dict):
+                    state["store"] = store
+                else:
+                    state.store = store
+                t4cfg = {"enabled": True, "delta_norm_cap_l2": t["l2_milli"] / 1000.0, "novelty_cap_per_node": t["nov_milli"] / 1000.0, "churn_cap_edges": t["churn"],
+                         "snapshot_every_n_turns": 2, "snapshot_dir": str(snapdir), "cooldowns": {}, "cache": {"enabled": False}}
+                ctx = SimpleNamespace(turn_id=k, agent_id="A", config=SimpleNamespace(t4=t4cfg, t3={"enabled": False}))
+                seen.clear()
+                cur["plan"] = plan
+                crash = None
+                try:
+                    if case["mode"] == "run_turn":
+                        orch.run_turn(ctx, state, f"text {k}")
+                        t4res = seen.get("t4")
+                    else:
+                        t4res = real_t4(ctx, state, None, None, plan, None)
+                        ap.apply_changes(ctx, state, t4res)
+                except Exception as e:
+                    crash = f"{type(e).__name__}: {e}"[:200]
+                    t4res = seen.get("t4")
+                approved = list(getattr(t4res, "approved_deltas", []) or []) if t4res is not None else []
+                same_objs = bool(store.batches) and len(store.batches[0]) == len(approved) and \
+                    all(a is b for a, b in zip(store.batches[0], approved))
+                out_turns.append({"approved": [_ckey(d) for d in approved], "calls": [[_ckey(d) for d in b] for b in store.batches],
+                                  "same_objects": same_objs, "crash": crash,
+                                  "reasons": list(getattr(t4res, "reasons", []) or []) if t4res is not None else [],
+                                  "mags": [abs(float(d.delta)) for d in approved]})
+        finally:
+            for name, val in saved.items():
+                if val is not None:
+                    setattr(orch, name, val)
+            core.t4_filter = saved_core
+        return {"turns": out_turns}
+
+    def compare(self, case, impl_out, model_out):
+        if "__raised__" in impl_out:
+            return f"harness adapter raised {impl_out}"
+        return None
+
+    def monitor_requests(self, case, io):
+        return [("canonical_order", {"c": "apply.canon", "approved": t["approved"], "calls": t["calls"]})
+                for t in io["turns"] if t["crash"] is None]
+
+    def monitors(self, case, io):
+        res = []
+        for k, t in enumerate(io["turns"]):
+            res.append(("total", t["crash"] is None, f"turn {k} raised {t['crash']}"))
+            if t["crash"] is None:
+                res.append(("batch_is_approved", t["same_objects"], f"turn {k}: the batch is not the approved list object-for-object"))
+        return res
+
+    def tags(self, case, io):
+        t = set()
+        for tt in io.get("turns", []):
+            if "CHURN_CAP_HIT" in tt["reasons"]:
+                t.add("churn_trim")
+                m = tt["mags"]
+                if len(m) > 1 and any(a < b for a, b in zip(m, m[1:])):
+                    t.add("key_order_differs_from_magnitude_rank")
+            if len(tt["calls"]) > 1:
+                t.add("fallback")
+            if "DELTA_NORM_HIGH" in tt["reasons"] or "NOVELTY_SPIKE" in tt["reasons"]:
+                t.add("scaled_or_clamped")
+        if case["mode"] == "run_turn":
+            t.add("via_run_turn")
+            if len(case["turns"]) > 1:
+                t.add("history")
+        return sorted(t) or ["default"]
+
+    def shrink(self, case):
+        ts = case["turns"]
+        for i in range(len(ts)):
+            if len(ts) > 1:
+                yield dict(case, turns=ts[:i] + ts[i + 1:])
+            ds = ts[i]["deltas"]
+            for j in range(len(ds)):
+                yield dict(case, turns=ts[:i] + [dict(ts[i], deltas=ds[:j] + ds[j + 1:])] + ts[i + 1:])
+
+
+COMPONENTS = [ApplyComp(), HistComp(), T4ApplyComp()]
 
 
 def _prepare(ctx: Ctx) -> None:
